@@ -346,7 +346,8 @@ MUTATIONS = ["rename_existing", "rename_empty", "rename_new", "drop", "duplicate
              "cycle", "bad_elem_type", "bad_data_type", "bad_attr_type", "tensor_fields", "external_absurd",
              "bad_utf8", "clear_type", "map_type", "seq_no_elem", "output_repeat", "output_like_input",
              "move_node_inner", "dup_function", "fn_output_unknown", "attr_dup_name", "init_unnamed",
-             "vi_for_unknown", "graph_attr_ref", "swap_scopes", "dup_init", "subgraph_output_outer"]
+             "vi_for_unknown", "graph_attr_ref", "swap_scopes", "dup_init", "subgraph_output_outer",
+             "name_field_absent", "generated_names"]
 
 
 def mutate(m, rng, kind=None):
@@ -444,6 +445,12 @@ def mutate(m, rng, kind=None):
                     [("location", "w.bin"), ("length", "1e3")],
                     [("location", "/nonexistent/dir/x"), ("checksum", "zz"), ("bogus", "1")],
                     [("location", ""), ("offset", "0")],
+                    [("location", "sub\\w.bin"), ("offset", "0"), ("length", "4")],
+                    [("location", "..\\..\\w.bin")],
+                    [("location", "C:\\models\\w.bin"), ("length", "4")],
+                    [("location", "w?*.bin")], [("location", "~/w.bin")], [("location", "$HOME/%TEMP%/w.bin")],
+                    [("location", "a b\tc.bin")], [("location", "w.bin\x00x")], [("location", "file:///etc/passwd")],
+                    [("location", "//server/share/w.bin")], [("location", "w.bin/")], [("location", "./././w.bin")],
                     []]):
                 e = t.external_data.add()
                 e.key, e.value = k, v
@@ -576,6 +583,34 @@ def mutate(m, rng, kind=None):
                 sg.output[rng.randrange(len(sg.output))].name = k
             else:
                 sg.output.append(gen_vinfo(rng, k))
+        elif kind == "name_field_absent":
+            # the `name` field ABSENT (not merely empty) on inputs / outputs / value_info / initializers / nodes
+            objs = [o for g in graphs for c in (g.input, g.output, g.value_info, g.initializer, g.node) for o in c]
+            if not objs:
+                return None
+            for o in rng.sample(objs, min(len(objs), rng.randrange(1, 3))):
+                o.ClearField("name")
+            # ... and, often, an unnamed graph input next to a node output that carries the name a name
+            # generator would pick for the first unnamed value
+            gs = [g for g in graphs if len(g.input) and any(len(n.output) for n in g.node)]
+            if gs and rng.random() < 0.6:
+                g = rng.choice(gs)
+                rng.choice(g.input).ClearField("name")
+                n = rng.choice([n for n in g.node if len(n.output)])
+                n.output[rng.randrange(len(n.output))] = rng.choice(["val_0", "val_0", "val_1"])
+        elif kind == "generated_names":
+            # names that look like the ones the library's NameAuthority generates
+            pool = ["val_0", "val_1", "val_2", "node_Relu_0", "node_Add_1", "anonymous:1"]
+            done = 0
+            for _ in range(rng.randrange(1, 4)):
+                if slots and rng.random() < 0.75:
+                    rng.choice(slots)[1](rng.choice(pool[:3]))
+                    done += 1
+                elif nlists:
+                    rng.choice(rng.choice(nlists)).name = rng.choice(pool[3:])
+                    done += 1
+            if not done:
+                return None
         elif kind == "dup_init":
             gs = [g for g in graphs if len(g.initializer)]
             if not gs:
@@ -797,6 +832,14 @@ def oracle_invariants(model) -> list[str]:
             flagged = v.is_graph_input() or v.is_graph_output() or v.is_initializer()
             if (v.graph is None) != (not flagged):
                 bad.append(f"I7: value {v.name!r} owner graph {'unset' if v.graph is None else 'set'} but flags={flagged}")
+    # everything a value of the model is linked to must be part of the model
+    for v in w.values:
+        for u in v.uses():
+            if id(u.node) not in w.ni:
+                bad.append(f"I1x: value {v.name!r} is used by node {u.node.name!r} ({u.node.op_type}) that is in no graph of the model")
+        p = v.producer()
+        if p is not None and id(p) not in w.ni:
+            bad.append(f"I2x: value {v.name!r} is produced by node {p.name!r} ({p.op_type}) that is in no graph of the model")
     for n in nodes:
         for i, v in enumerate(n.inputs):
             if v is not None and not any(u.node is n and u.idx == i for u in v.uses()):
@@ -966,6 +1009,72 @@ def correspondence(ck, terms: list, tag: str) -> tuple:
     return bad_d, bad_r, bad_f, bad_i, bad_s, bad_w
 
 
+# --------------------------------------------------------------------------- sequences of calls (order independence)
+
+
+def gen_sequence(rng) -> tuple:
+    """(A, B): A fails half-way through its main graph (an attribute the deserializer does not support on its
+    last node), B reads, as a dangling name, a name that A declares."""
+    onnx, H, TP = _onnx()
+    a = gen_model(rng)
+    declared = [o for n in a.graph.node for o in n.output if o] + [i.name for i in a.graph.input if i.name]
+    if not declared:
+        declared = ["zseq"]
+        a.graph.node.append(H.make_node("Relu", [], ["zseq"], name="seq_decl"))
+    bad = H.make_node("Custom", [rng.choice(declared)], ["seq_q"], name="seq_bad")
+    at = bad.attribute.add()
+    at.name, at.type = "weird", rng.choice([onnx.AttributeProto.SPARSE_TENSOR, onnx.AttributeProto.SPARSE_TENSORS])
+    a.graph.node.append(bad)
+    b = gen_model(rng)
+    own = {o for g in all_graphs(b) for n in g.node for o in n.output} | {i.name for g in all_graphs(b) for i in g.input} \
+        | {t.name for g in all_graphs(b) for t in g.initializer}
+    cands = [k for k in declared if k not in own] or ["zseq2"]
+    k = rng.choice(cands)
+    if k == "zseq2":
+        a.graph.node.insert(0, H.make_node("Relu", [], ["zseq2"], name="seq_decl2"))
+    g = rng.choice(all_graphs(b))
+    g.node.append(H.make_node("Add", [k, k], ["seq_out"], name="seq_use"))
+    return a, b
+
+
+def run_sequence(a, b) -> list[str]:
+    """from_proto(B) must give the same IR before and after a from_proto(A) that raises."""
+    import onnx_ir as ir
+
+    def obs(p):
+        try:
+            m = ir.from_proto(copy.deepcopy(p))
+        except Exception as e:  # noqa: BLE001
+            return "raise:" + type(e.__cause__ or e).__name__, []
+        return S.ir_obs(m, S.Interner()), oracle_invariants(m)
+    o1, inv1 = obs(b)
+    try:
+        ir.from_proto(copy.deepcopy(a))
+        first = "returned"
+    except Exception:  # noqa: BLE001
+        first = "raised"
+    o2, inv2 = obs(b)
+    bad = []
+    if o1 != o2:
+        bad.append(f"sequence: from_proto(B) differs after a from_proto(A) that {first} (order dependence)")
+    bad += [f"sequence: after A {first}: " + m for m in inv2 if m not in inv1]
+    return bad
+
+
+def sequence_check(ck) -> None:
+    n = 40 if not ck.thorough else 600
+    reported = False
+    for _ in range(n):
+        a, b = gen_sequence(ck.rng)
+        msgs = run_sequence(a, b)
+        ck.count()
+        ck.hist("sequences", "ok" if not msgs else "order-dependent")
+        if msgs and not reported:
+            reported = True
+            ck.violation({"kind": "sequence", "first_b64": proto_b64(a), "second_b64": proto_b64(b),
+                          "first": describe(a)[:1500], "second": describe(b)[:1500], "failures": msgs[:5]})
+
+
 # --------------------------------------------------------------------------- shrinking / search
 
 
@@ -1085,6 +1194,9 @@ def run(ck) -> None:
     ck.coverage["rule"] = ("non-trivial = proto with a structural defect (mutated/random) that the deserializer "
                            "accepts, or a nested scope / placeholder / redeclaration path")
     ck.prove("C17")
+    # order independence first, while this process has not seen a failing from_proto yet
+    run_impl(gen_model(__import__("random").Random(1)))
+    sequence_check(ck)
     n_cases = 500 if not ck.thorough else 12000
     cases = []          # (proto, desc, res)
     for fn, c in load_corpus():
@@ -1182,6 +1294,22 @@ def repair_known_sites(p):
             del g.initializer[:]
             g.initializer.extend(keep)
             changed = True
+    # ghost-consumers-of-dropped-duplicate-attribute: keep only the LAST attribute of a repeated name
+    again = True
+    while again:                      # node lists are re-collected after every edit (edits replace sub-messages)
+        again = False
+        for nl in all_node_lists(q):
+            for n in nl:
+                names = [a.name for a in n.attribute]
+                if len(set(names)) != len(names):
+                    last = {k: i for i, k in enumerate(names)}
+                    keep = [copy.deepcopy(a) for i, a in enumerate(n.attribute) if last[a.name] == i]
+                    del n.attribute[:]
+                    n.attribute.extend(keep)
+                    changed = again = True
+                    break
+            if again:
+                break
     for g in all_graphs(q):
         ins = {i.name for i in g.input}
         inits = {t.name for t in g.initializer} - ins
@@ -1261,6 +1389,11 @@ def search(ck, diverging: list) -> None:
 def replay(rp: dict) -> int:
     import logging
     logging.disable(logging.WARNING)
+    if rp.get("kind") == "sequence":
+        a, b = proto_from_b64(rp["first_b64"]), proto_from_b64(rp["second_b64"])
+        msgs = run_sequence(a, b)
+        print(json.dumps({"failures": msgs}, indent=1))
+        return 1 if msgs else 0
     if "proto_b64" not in rp:
         print("replay names a broken obligation/correspondence, no concrete input:",
               json.dumps(rp.get("broken"), indent=1)[:3000])
